@@ -468,6 +468,7 @@ impl TropicalSubgraphTable {
         let j = uniform.from_f64(self.table[subgraph.id].j_function);
 
         let mut cum_sum = uniform.zero();
+        let mut last_edge = None;
         for edge in edges_in_subgraph {
             let graph_without_edge = subgraph.pop_edge(edge);
             let p_e = uniform.from_f64(self.table[graph_without_edge.id].j_function)
@@ -476,6 +477,15 @@ impl TropicalSubgraphTable {
             cum_sum += &p_e;
             if &cum_sum >= uniform {
                 return (edge, graph_without_edge);
+            }
+            last_edge = Some((edge, graph_without_edge));
+        }
+
+        // The probabilities only sum to one up to rounding, so a uniform number within rounding
+        // distance of one can exceed the accumulated total: it selects the last edge.
+        if let Some(last_edge) = last_edge {
+            if uniform < &uniform.one() && cum_sum > uniform.from_f64(1.0 - 1.0e-9) {
+                return last_edge;
             }
         }
 
